@@ -1,0 +1,97 @@
+//go:build verif
+
+package redisemu
+
+// Executable specification functions used by the contracts in
+// zz_contracts_verif.go. They are translated to SMT by the verifier (by
+// symbolic inlining) and executed natively by the replay harness, so there is
+// one definition of each. Not part of normal builds (tag verif).
+
+// specBit is bit i of b seen as a big-endian bit array; bits beyond the end
+// read as zero.
+func specBit(b []byte, i int) uint64 {
+	if i/8 >= len(b) {
+		return 0
+	}
+	return uint64(b[i/8]>>(7-uint(i%8))) & 1
+}
+
+// specField is the unsigned value of the w bits starting at bit start.
+func specField(b []byte, start, w int) uint64 {
+	var v uint64
+	for i := 0; i < w; i++ {
+		v = v<<1 | specBit(b, start+i)
+	}
+	return v
+}
+
+// specSetOK: every bit of the bytes touched by a field write [start,start+width)
+// equals the corresponding bit of value (two's complement, low width bits,
+// most significant first) inside the field and the old bit outside it.
+func specSetOK(newb, oldb []byte, start, width int, value int64) bool {
+	first := start / 8
+	last := (start + width - 1) / 8
+	for j := first; j <= last; j++ {
+		for t := 0; t < 8; t++ {
+			i := j*8 + t
+			var want uint64
+			if i >= start && i < start+width {
+				want = uint64(value>>uint(width-1-(i-start))) & 1
+			} else {
+				want = specBit(oldb, i)
+			}
+			if specBit(newb, i) != want {
+				return false
+			}
+		}
+	}
+	return true
+}
+
+// specFitsSigned: v is representable as a bits-wide two's complement integer.
+func specFitsSigned(v int64, bits int) bool {
+	if bits >= 64 {
+		return true
+	}
+	hi := int64(1)<<uint(bits-1) - 1
+	return v >= -hi-1 && v <= hi
+}
+
+// specFitsUnsigned: 0 <= v < 2^bits (bits <= 63).
+func specFitsUnsigned(v int64, bits int) bool {
+	return v >= 0 && (bits >= 63 || v < int64(1)<<uint(bits))
+}
+
+// specSignedSumOverflows: the mathematical sum a+b lies outside the bits-wide
+// signed range. Written so that no intermediate wraps.
+func specSignedSumOverflows(a, b int64, bits int) bool {
+	var hi int64
+	if bits >= 64 {
+		hi = 9223372036854775807
+	} else {
+		hi = int64(1)<<uint(bits-1) - 1
+	}
+	lo := -hi - 1
+	if b > 0 {
+		return a > hi-b
+	}
+	return a < lo-b
+}
+
+// specSignExtend interprets the low bits of v as a bits-wide signed integer.
+func specSignExtend(v int64, bits int) int64 {
+	if bits >= 64 {
+		return v
+	}
+	s := uint(64 - bits)
+	return (v << s) >> s
+}
+
+// specPopRange counts the set bits in bit positions [lo,hi] of b.
+func specPopRange(b []byte, lo, hi int) int {
+	n := 0
+	for i := lo; i <= hi; i++ {
+		n += int(specBit(b, i))
+	}
+	return n
+}
